@@ -8,18 +8,17 @@ pub(crate) fn validate_scalar_definition(
     schema: &crate::Schema,
     scalar_def: &Node<schema::ScalarType>,
 ) {
-    // All built-in scalars must be omitted for brevity.
-    if !scalar_def.is_built_in() {
-        super::directive::validate_directives(
-            diagnostics,
-            Some(schema),
-            scalar_def
-                .directives
-                .iter()
-                .map(|component| &component.node),
-            ast::DirectiveLocation::Scalar,
-            // scalars don't use variables
-            Default::default(),
-        );
-    }
+    // Built-in scalars have no directives of their own,
+    // but extensions can add some to them like to any other scalar.
+    super::directive::validate_directives(
+        diagnostics,
+        Some(schema),
+        scalar_def
+            .directives
+            .iter()
+            .map(|component| &component.node),
+        ast::DirectiveLocation::Scalar,
+        // scalars don't use variables
+        Default::default(),
+    );
 }
